@@ -4,7 +4,10 @@
 //
 // header: {"form":"rvalue"|"lvalue","nemit":n,"kinds":{name:"prel"|"thrl"|"precbt"|"precbf"|"thrcbt"|"thrcbf"},
 //          "order":[pre-subscribed listeners in subscription order]}
-// step label: CEmit | CXchg | CCas | CDrop | CDxchg | TStart(t) | TCas(t) | TDxchg(t)  (= "step that thread")
+//          "fine":bool -- finest grain (spec/Signal/SignalFine.tla, vsched yield_after): the code after every
+//          visible operation is a step of its own; pending operations are then reported as pre:X / post:X
+// step label: CEmit | CXchg | CCas | CDrop | CDxchg | TStart(t) | TCas(t) | TDxchg(t)  (= "step that thread");
+//          any label starting with C steps the collector thread, any other the thread named by its argument
 // projection after each step:
 //   {"chain":[from the top],"refs":use_count,"cur","stor","cvar","lst":{l:state},"received":{l:[..]},
 //    "pend":{"C":pc,t:pc},"casn":listener whose CAS the collector thread is executing | "null",
@@ -103,6 +106,7 @@ struct World {
     int nemit = 0;
     int lv_slot = 0, rv_slot = 0;
     bool c_dropping = false;
+    bool fine = false;
     vsched sched;
 
     const cocls::awaiter *node_of(const std::string &name) {
@@ -132,9 +136,8 @@ struct World {
     }
 };
 
-static std::string pend_of(World &w, const std::string &name) {
+static std::string pend_site(World &w, const std::string &name) {
     int t = w.tid[name];
-    if (w.sched.done(t)) return "done";
     const auto &e = w.sched.pending(t);
     switch (e.op) {
         case op_t::mark: return e.tag;
@@ -143,6 +146,14 @@ static std::string pend_of(World &w, const std::string &name) {
         default: break;
     }
     return std::string("?") + cocls_verif::op_name(e.op) + "@" + e.func;
+}
+
+static std::string pend_of(World &w, const std::string &name) {
+    int t = w.tid[name];
+    if (w.sched.done(t)) return "done";
+    std::string site = pend_site(w, name);
+    if (!w.fine) return site;
+    return std::string(w.sched.pending_after(t) ? "post:" : "pre:") + site;
 }
 
 static J project(World &w) {
@@ -154,7 +165,7 @@ static J project(World &w) {
     int stor = 0;
     // a thread parked at the exchange of ~state is inside the destructor body: the object is still there
     bool in_dtor = false;
-    for (auto &kv : w.tid) in_dtor = in_dtor || pend_of(w, kv.first) == "dxchg";
+    for (auto &kv : w.tid) in_dtor = in_dtor || (!w.sched.done(kv.second) && pend_site(w, kv.first) == "dxchg");
     if (refs > 0 || in_dtor) {
         int fuel = 12;
         for (cocls::awaiter *n = w.raw->_chain.verif_peek(); n && fuel--; n = n->_next) chain.push_back(w.who(n));
@@ -174,7 +185,8 @@ static J project(World &w) {
     for (auto &kv : w.tid) {
         pend.set(kv.first, pend_of(w, kv.first));
         int t = kv.second;
-        if (w.sched.parked(t) && w.sched.pending(t).op == op_t::cas) {
+        // a CAS that is still to be executed, or (finest grain) has just failed and will be retried
+        if (w.sched.parked(t) && w.sched.pending(t).op == op_t::cas && (!w.sched.pending_after(t) || !w.sched.pending(t).ok)) {
             auto node = reinterpret_cast<cocls::awaiter *>((std::uintptr_t) w.sched.pending(t).arg);
             std::string l = w.who(node);
             casing[l] = w.who(node->_next);
@@ -247,6 +259,8 @@ static void run(const Scenario &sc, Reporter &rep) {
         w.sched.no_yield = [](const cocls_verif::event &e) {
             return (e.op == op_t::load) && strstr(e.func, "awaiter::subscribe(") != nullptr;
         };
+        w.fine = sc.hdr.at("fine").as_bool(false);
+        w.sched.yield_after = w.fine;
         w.sched.install();
         World *pw = &w;
         w.tid["C"] = w.sched.spawn([pw] {
